@@ -1,5 +1,5 @@
 # replay of a bounded stand-in violation (C11): re-run native/c11_compilers.py
 import sys
-print("passive n=6 modes=[5, 4, 3] gates=[('Rgate', (5,)), ('BSgate', (4, 5)), ('Fouriergate', (4,)), ('MZgate', (4, 3)), ('MZgate', (4, 5)), ('BSgate', (3, 4)), ('BSgate', (5, 3)), ('BSgate', (5, 3)), ('MZgate', (4, 5)), ('BSgate', (4, 3)), ('BSgate', (5, 3)), ('BSgate', (5, 3)), ('Fouriergate', (4,)), ('Fouriergate', (5,))]: compile raised CircuitError: The operation Fouriergate cannot be used with the compiler 'passive'.")
+print("gaussian_merge n=5 gates=[('Dgate', (0,)), ('Sgate', (2,)), ('Sgate', (3,)), ('Kgate', (0,)), ('Sgate', (0,)), ('BSgate', (1, 0)), ('S2gate', (0, 2)), ('S2gate', (1, 4)), ('Kgate', (3,)), ('Dgate', (0,)), ('Rgate', (2,))]: with the opaque gates interpreted as fixed unitaries the compiled program [('Dgate', [0]), ('Sgate', [3]), ('Kgate', [0]), ('Kgate', [3]), ('GaussianTransform', [0, 1, 2, 4]), ('Dgate', [0]), ('MeasureFock', [0, 1, 2, 3, 4])] computes something else (max difference 0.934)")
 print('REPLAY-VIOLATION')
 sys.exit(1)
